@@ -19,82 +19,12 @@
 #endif
 #define KMAX 2          /* key / segment / parameter-name length bound */
 void _ZNK8Pistache4Rest15SegmentTreeNode9findRouteERKSt17basic_string_viewIcSt11char_traitsIcEERSt6vectorINS0_10TypedParamESaIS9_EESC_(u8*, u8*, u8*, u8*, u8*);
-/* ------------------------------------------------------------------ byte arena: keys at [0,32), path at [32,64) */
-static u8 arena[64];
-#define PATH (arena + 32)
-typedef struct { u64 len; u8* p; } sv_t;
-typedef struct { sv_t key; u8* node; u8* ctrl; } entry_t;
-_Static_assert(sizeof(entry_t) == SIZEOF_NodeMapEntry && offsetof(entry_t, node) == OFF_NodeMapEntry_second && sizeof(sv_t) == SIZEOF_StringView, "map entry layout");
-typedef struct { u64 n; entry_t* e; } gmapn_t;
-typedef struct { u64 n; u64 w; u64 w2; } gvec_t;   /* items 0..3 in w, 4..7 in w2 */
-#define GM_(m) ((gmapn_t*)(m))
-#define GV(v) ((gvec_t*)(v))
+#include "c10_models.h"
 #define NCH 6                                  /* children: 0,1 fixed  2,3 parameter  4 optional  5 splat */
 static u8 node[SIZEOF_Node] __attribute__((aligned(8)));
 static u8 child[NCH][SIZEOF_Node] __attribute__((aligned(8)));
 static entry_t ent_fixed[2], ent_param[2], ent_opt[1];
 static u8 routes[NCH + 1][8];
-/* ------------------------------------------------------------------ string_view */
-u8 _ZNKSt17basic_string_viewIcSt11char_traitsIcEE5emptyEv(u8* s) { return ((sv_t*)s)->len == 0; }
-u8* _ZNKSt17basic_string_viewIcSt11char_traitsIcEE4dataEv(u8* s) { return ((sv_t*)s)->p; }
-u64 _ZNKSt17basic_string_viewIcSt11char_traitsIcEE6lengthEv(u8* s) { return ((sv_t*)s)->len; }
-void _ZNSt17basic_string_viewIcSt11char_traitsIcEEC2EPKcm(u8* s, u8* p, u64 n) { ((sv_t*)s)->p = p; ((sv_t*)s)->len = n; }
-#define PMAX 8
-u64 _ZNKSt17basic_string_viewIcSt11char_traitsIcEE4findEcm(u8* s, u8 c, u64 pos) { sv_t* v = (sv_t*)s; u64 g = ~(u64)0; for (u64 i = PMAX; i > 0; i--) { u64 j = i - 1; if (j >= pos && j < v->len && v->p[j] == c) g = j; } return g; }
-agg16_8 _ZNKSt17basic_string_viewIcSt11char_traitsIcEE6substrEmm(u8* s, u64 pos, u64 n) {
-  sv_t* v = (sv_t*)s; agg16_8 r; sv_t* o = (sv_t*)&r;
-  if (pos > v->len) { _ZSt24__throw_out_of_range_fmtPKcz(0); o->len = 0; o->p = 0; return r; }
-  u64 rem = v->len - pos; o->p = v->p + pos; o->len = n < rem ? n : rem; return r; }
-static int sv_eq(sv_t* a, sv_t* b) { if (a->len != b->len) return 0; for (u64 i = 0; i < KMAX; i++) if (i < a->len && a->p[i] != b->p[i]) return 0; return 1; }
-/* ------------------------------------------------------------------ unordered_map<string_view, shared_ptr<Node>> */
-u64 _ZNKSt13unordered_mapISt17basic_string_viewIcSt11char_traitsIcEESt10shared_ptrIN8Pistache4Rest15SegmentTreeNodeEESt4hashIS3_ESt8equal_toIS3_ESaISt4pairIKS3_S8_EEE5countERSE_(u8* m, u8* k) {
-  for (u64 i = 0; i < 2; i++) if (i < GM_(m)->n && sv_eq(&GM_(m)->e[i].key, (sv_t*)k)) return 1; return 0; }
-u8* _ZNKSt13unordered_mapISt17basic_string_viewIcSt11char_traitsIcEESt10shared_ptrIN8Pistache4Rest15SegmentTreeNodeEESt4hashIS3_ESt8equal_toIS3_ESaISt4pairIKS3_S8_EEE2atERSE_(u8* m, u8* k) {
-  for (u64 i = 0; i < 2; i++) if (i < GM_(m)->n && sv_eq(&GM_(m)->e[i].key, (sv_t*)k)) return (u8*)&GM_(m)->e[i].node;
-  vp_throw_std(_ZTISt12out_of_range); return 0; }
-u8* _ZNKSt13unordered_mapISt17basic_string_viewIcSt11char_traitsIcEESt10shared_ptrIN8Pistache4Rest15SegmentTreeNodeEESt4hashIS3_ESt8equal_toIS3_ESaISt4pairIKS3_S8_EEE5beginEv(u8* m) { return (u8*)&GM_(m)->e[0]; }
-u8* _ZNKSt13unordered_mapISt17basic_string_viewIcSt11char_traitsIcEESt10shared_ptrIN8Pistache4Rest15SegmentTreeNodeEESt4hashIS3_ESt8equal_toIS3_ESaISt4pairIKS3_S8_EEE3endEv(u8* m) { return (u8*)&GM_(m)->e[GM_(m)->n]; }
-u8 _ZNKSt13unordered_mapISt17basic_string_viewIcSt11char_traitsIcEESt10shared_ptrIN8Pistache4Rest15SegmentTreeNodeEESt4hashIS3_ESt8equal_toIS3_ESaISt4pairIKS3_S8_EEE5emptyEv(u8* m) { return GM_(m)->n == 0; }
-u8 _ZNSt8__detailneERKNS_19_Node_iterator_baseISt4pairIKSt17basic_string_viewIcSt11char_traitsIcEESt10shared_ptrIN8Pistache4Rest15SegmentTreeNodeEEELb1EEESF_(u8* a, u8* b) { return *(u8**)a != *(u8**)b; }
-u8* _ZNKSt8__detail20_Node_const_iteratorISt4pairIKSt17basic_string_viewIcSt11char_traitsIcEESt10shared_ptrIN8Pistache4Rest15SegmentTreeNodeEEELb0ELb1EEdeEv(u8* it) { return *(u8**)it; }
-u8* _ZNKSt8__detail20_Node_const_iteratorISt4pairIKSt17basic_string_viewIcSt11char_traitsIcEESt10shared_ptrIN8Pistache4Rest15SegmentTreeNodeEEELb0ELb1EEptEv(u8* it) { return *(u8**)it; }
-u8* _ZNSt8__detail20_Node_const_iteratorISt4pairIKSt17basic_string_viewIcSt11char_traitsIcEESt10shared_ptrIN8Pistache4Rest15SegmentTreeNodeEEELb0ELb1EEppEv(u8* it) { *(u8**)it += sizeof(entry_t); return it; }
-/* ------------------------------------------------------------------ shared_ptr */
-u8* _ZNKSt19__shared_ptr_accessIN8Pistache4Rest15SegmentTreeNodeELN9__gnu_cxx12_Lock_policyE2ELb0ELb0EEptEv(u8* sp) { return *(u8**)sp; }
-u8 _ZStneIN8Pistache4Rest15SegmentTreeNodeEEbRKSt10shared_ptrIT_EDn(u8* sp, u8* n) { (void)n; return *(u8**)sp != 0; }
-void _ZNSt10shared_ptrIN8Pistache4Rest5RouteEEC2ERKS3_(u8* d, u8* s) { *(u8**)d = *(u8**)s; *(u8**)(d + 8) = 0; }
-void _ZNSt10shared_ptrIN8Pistache4Rest5RouteEEC2EDn(u8* d, u8* n) { (void)n; *(u8**)d = 0; *(u8**)(d + 8) = 0; }
-u8* _ZNSt10shared_ptrIN8Pistache4Rest5RouteEEaSEOS3_(u8* d, u8* s) { *(u8**)d = *(u8**)s; *(u8**)s = 0; return d; }
-u8* _ZNSt10shared_ptrIN8Pistache4Rest5RouteEEaSERKS3_(u8* d, u8* s) { *(u8**)d = *(u8**)s; return d; }
-u8 _ZStneIN8Pistache4Rest5RouteEEbRKSt10shared_ptrIT_EDn(u8* sp, u8* n) { (void)n; return *(u8**)sp != 0; }
-u8 _ZSteqIN8Pistache4Rest5RouteEEbRKSt10shared_ptrIT_EDn(u8* sp, u8* n) { (void)n; return *(u8**)sp == 0; }
-void _ZNSt12__shared_ptrIN8Pistache4Rest5RouteELN9__gnu_cxx12_Lock_policyE2EED2Ev(u8* sp) { (void)sp; }
-/* ------------------------------------------------------------------ vector<TypedParam>: packed items (16 bits each, <= 4) */
-static u64 pack(u8* np, u64 nl, u8* vp, u64 vl) {
-  __CPROVER_assert(nl <= 3 && vl <= 3, "ghost vector item: name/value of at most 3 bytes (harness bound)");
-  u64 no = nl ? (u64)(np - arena) : 0, vo = vl ? (u64)(vp - arena) : 0;
-  __CPROVER_assert(no < 64 && vo < 64, "ghost vector item: name/value bytes lie in the harness arena (keys or path)");
-  return (no & 63) | ((nl & 3) << 6) | ((vo & 63) << 8) | ((vl & 3) << 14); }
-static void gv_push(gvec_t* v, u64 it) { __CPROVER_assert(v->n < 8, "ghost vector capacity (8 bindings: harness bound)"); if (v->n < 4) v->w |= (it & 0xffff) << (16 * v->n); else v->w2 |= (it & 0xffff) << (16 * (v->n - 4)); v->n++; }
-static void gv_pop(gvec_t* v) { __CPROVER_assert(v->n > 0, "pop_back on a non-empty vector"); v->n--; if (v->n < 4) v->w &= ~((u64)0xffff << (16 * v->n)); else v->w2 &= ~((u64)0xffff << (16 * (v->n - 4))); }
-void _ZNSt6vectorIN8Pistache4Rest10TypedParamESaIS2_EEC2Ev(u8* v) { GV(v)->n = 0; GV(v)->w = 0; GV(v)->w2 = 0; }
-void _ZNSt6vectorIN8Pistache4Rest10TypedParamESaIS2_EED2Ev(u8* v) { (void)v; }
-void _ZNSt6vectorIN8Pistache4Rest10TypedParamESaIS2_EEC2EOS4_(u8* d, u8* s) { GV(d)->n = GV(s)->n; GV(d)->w = GV(s)->w; GV(d)->w2 = GV(s)->w2; GV(s)->n = 0; GV(s)->w = 0; GV(s)->w2 = 0; }
-u8* _ZNSt6vectorIN8Pistache4Rest10TypedParamESaIS2_EEaSEOS4_(u8* d, u8* s) { GV(d)->n = GV(s)->n; GV(d)->w = GV(s)->w; GV(d)->w2 = GV(s)->w2; GV(s)->n = 0; GV(s)->w = 0; GV(s)->w2 = 0; return d; }
-static u8 tp_dummy[SIZEOF_TypedParam];
-u8* _ZNSt6vectorIN8Pistache4Rest10TypedParamESaIS2_EE12emplace_backIJRNSt7__cxx1112basic_stringIcSt11char_traitsIcESaIcEEESC_EEERS2_DpOT_(u8* v, u8* name, u8* val) {
-  gv_push(GV(v), pack(GS(name)->p, GS(name)->len, GS(val)->p, GS(val)->len)); return tp_dummy; }
-void _ZNSt6vectorIN8Pistache4Rest10TypedParamESaIS2_EE8pop_backEv(u8* v) { gv_pop(GV(v)); }
-/* ------------------------------------------------------------------ tuple<shared_ptr<Route>, vector, vector> (sret) */
-static void mk_result(u8* ret, u8* route, u8* a, u8* b) {
-  *(u8**)(ret + OFF_FindResult_route) = route; *(u8**)(ret + OFF_FindResult_route + 8) = 0;
-  _ZNSt6vectorIN8Pistache4Rest10TypedParamESaIS2_EEC2EOS4_(ret + OFF_FindResult_params, a); _ZNSt6vectorIN8Pistache4Rest10TypedParamESaIS2_EEC2EOS4_(ret + OFF_FindResult_splats, b); }
-void _ZSt10make_tupleIJDnSt6vectorIN8Pistache4Rest10TypedParamESaIS3_EES5_EESt5tupleIJDpNSt25__strip_reference_wrapperINSt5decayIT_E4typeEE6__typeEEEDpOS9_(u8* ret, u8* n, u8* a, u8* b) {
-  /* tuple<nullptr_t, vector, vector>: 56 bytes, the first element is a bare nullptr_t (no control-block word) */
-  (void)n; *(u8**)(ret + OFF_FindResult_route) = 0;
-  _ZNSt6vectorIN8Pistache4Rest10TypedParamESaIS2_EEC2EOS4_(ret + OFF_FindResult_params, a); _ZNSt6vectorIN8Pistache4Rest10TypedParamESaIS2_EEC2EOS4_(ret + OFF_FindResult_splats, b); }
-void _ZSt10make_tupleIJRKSt10shared_ptrIN8Pistache4Rest5RouteEESt6vectorINS2_10TypedParamESaIS8_EESA_EESt5tupleIJDpNSt25__strip_reference_wrapperINSt5decayIT_E4typeEE6__typeEEEDpOSE_(u8* ret, u8* r, u8* a, u8* b) { mk_result(ret, *(u8**)r, a, b); }
-
 /* ------------------------------------------------------------------ induction hypothesis: the recursive call on child k */
 static u8 ch_found[NCH]; static u8 ch_np[NCH], ch_ns[NCH]; static u16 ch_pitem[NCH], ch_sitem[NCH];   /* oracle */
 static u8* exp_lower_p; static u64 exp_lower_len; static u64 seg_len; static int path_empty;
